@@ -1451,9 +1451,11 @@ class Component(composites.Composite, metaclass=ComponentType):
             # possible that there are no nuclides in this component yet. In that case,
             # defer to Material. Material.density is wrapped to warn if it's attached
             # to a parent. Avoid that by calling the inner function directly
-            density = self.material.density.__wrapped__(
-                self.material, Tc=self.temperatureInC
+            # (fluids are not wrapped: their density method can be called as it is)
+            densityFunc = getattr(
+                type(self.material).density, "__wrapped__", type(self.material).density
             )
+            density = densityFunc(self.material, Tc=self.temperatureInC)
 
         return density
 
